@@ -635,6 +635,9 @@ func (r *rewriter) selectStmt(n *ast.SelectStmt) ast.Stmt {
 		cases = append(cases, &ast.CaseClause{List: []ast.Expr{&ast.BasicLit{Kind: token.INT, Value: strconv.Itoa(idx)}}, Body: append(pre, cc.Body...)})
 		idx++
 	}
+	// unreachable, but keeps a select whose clauses all return a terminating statement
+	cases = append(cases, &ast.CaseClause{Body: []ast.Stmt{&ast.ExprStmt{X: &ast.CallExpr{Fun: ast.NewIdent("panic"),
+		Args: []ast.Expr{&ast.BasicLit{Kind: token.STRING, Value: strconv.Quote("simsync.Select: no such case")}}}}}})
 	sw := &ast.SwitchStmt{Tag: r.call("Select", args...), Body: &ast.BlockStmt{List: cases}}
 	if len(lhs) > 0 {
 		sw.Init = &ast.AssignStmt{Lhs: lhs, Tok: token.DEFINE, Rhs: rhs}
